@@ -661,9 +661,15 @@ class AuthorityV:
         self.port = port  # z3 BitVec 16
         self.port_text = port_text if port_text is not None else z3.IntToStr(z3.BV2Int(port))
 
+    userinfo = None  # z3 String ("" = none) when the input builder enables it
+
     def as_str_model(self, ctx):
         if getattr(self, "_text", None) is None:
-            self._text = z3.If(self.has_port, z3.Concat(self.host, z3.StringVal(":"), self.port_text), self.host)
+            hp = z3.If(self.has_port, z3.Concat(self.host, z3.StringVal(":"), self.port_text), self.host)
+            self._hp = hp
+            if self.userinfo is not None:
+                hp = z3.If(self.userinfo == z3.StringVal(""), hp, z3.Concat(self.userinfo, z3.StringVal("@"), hp))
+            self._text = hp
         if ctx is not None:
             if not hasattr(ctx, "parse_registry"):
                 ctx.parse_registry = {}
@@ -1280,9 +1286,17 @@ def _str_parse(ctx, a, c):
         raise Inconclusive("str::parse for " + c)
     reg = getattr(ctx, "parse_registry", {})
     v = reg.get(s.get_id())
-    if v is None:
-        raise Inconclusive("str::parse::<Authority> of text that is not a registered authority")
-    return ok(v)
+    if v is not None:
+        return ok(v)
+    # the same text under another term?
+    for cand in list(reg.values()):
+        if ctx.branch(s == cand.as_str_model(ctx), "text equals a known authority"):
+            return ok(cand)
+    # a bare registered name (letters/digits/dots/dashes) parses as a host-only authority
+    name = z3.Plus(z3.Union(z3.Range("a", "z"), z3.Range("A", "Z"), z3.Range("0", "9"), z3.Re(z3.StringVal(".")), z3.Re(z3.StringVal("-"))))
+    if ctx.branch(z3.InRe(s, name), "text is a bare host name"):
+        return ok(AuthorityV(s, z3.BoolVal(False), z3.BitVecVal(0, 16)))
+    raise Inconclusive("str::parse::<Authority> of text that is neither a registered authority nor a bare host name")
 
 
 @model("<&str as PartialEq>::ne", "<&str as PartialEq<&str>>::ne", doc="core")
@@ -1312,6 +1326,12 @@ class VecDequeV:
 
     def values(self):
         return [c.v for c in self.cells]
+
+    def mir_drop(self, ctx):
+        cells, self.cells = self.cells, []
+        for c in cells:
+            if c.v is not None and not is_z3(c.v):
+                ctx.drop_value(c.v)
 
 
 def dq_of(ctx, v):
@@ -1469,3 +1489,161 @@ def _oneshot_is_closed(ctx, a, c):
 @model("cmp::min", "std::cmp::min", doc="core")
 def _min(ctx, a, c):
     return z3.If(z3.ULE(a[0], a[1]), a[0], a[1])
+
+
+# ================================================================================================
+# byte / index level access to strings
+# ================================================================================================
+def len_bv(ctx, s):
+    """length of a (short) z3 string as a 64-bit value: a fresh bit-vector tied to Length(s)
+    (int2bv over str.len is hard for the solvers; bv2int of a bounded value is not)"""
+    cache = getattr(ctx, "_len_cache", None)
+    if cache is None:
+        cache = ctx._len_cache = {}
+    k = s.get_id()
+    if k not in cache:
+        n = ctx.fresh_bv(64, "len")
+        ctx.assume(z3.ULT(n, 256))
+        ctx.assume(z3.BV2Int(n) == z3.Length(s))
+        cache[k] = (n, s)
+    return cache[k][0]
+
+
+class StrBytesV:
+    """`s.as_bytes()`: length and bytes of a z3 string (ASCII alphabet of the inputs)"""
+
+    def __init__(self, s):
+        self.s = s
+
+    def mir_len(self, ctx):
+        return len_bv(ctx, self.s)
+
+    def mir_index(self, ctx, idx):
+        i = z3.BV2Int(idx)
+        return z3.Int2BV(z3.StrToCode(z3.SubString(self.s, i, 1)), 8)
+
+
+@model("str::as_bytes", "String::as_bytes", doc="core: byte view of a string")
+def _as_bytes(ctx, a, c):
+    return Ref(Cell(StrBytesV(as_str(ctx, a[0])), "bytes"))
+
+
+@model("str::len", "String::len", doc="core: length in bytes")
+def _str_len(ctx, a, c):
+    return len_bv(ctx, as_str(ctx, a[0]))
+
+
+@model("<str as Index>::index", "<String as Index>::index", doc="core: `s[a..b]` panics unless a <= b <= len (inputs are ASCII, so every index is a char boundary)")
+def _str_index(ctx, a, c):
+    s = as_str(ctx, a[0])
+    r = a[1]
+    n = z3.Length(s)
+    if isinstance(r, Agg) and r.kind == "struct:Range":
+        lo, hi = z3.BV2Int(r.f[0]), z3.BV2Int(r.f[1])
+    elif isinstance(r, Agg) and r.kind == "struct:RangeFrom":
+        lo, hi = z3.BV2Int(r.f[0]), n
+    elif isinstance(r, Agg) and r.kind == "struct:RangeTo":
+        lo, hi = z3.IntVal(0), z3.BV2Int(r.f[0])
+    else:
+        raise Inconclusive("string index by " + repr(r))
+    if not ctx.branch(z3.And(lo <= hi, hi <= n), "slice range valid"):
+        raise Panic("byte index out of range while slicing a str")
+    return z3.SubString(s, lo, hi - lo)
+
+
+class SplitV:
+    def __init__(self, s, ch, rev):
+        self.s, self.ch, self.rev = s, ch, rev
+        self.count = 0
+
+
+@model("str::split", "str::rsplit", doc="core: split on a char pattern; only the first item of the iterator is modelled (text before the first / after the last occurrence)")
+def _split(ctx, a, c):
+    ch = z3.simplify(a[1])
+    if not z3.is_bv_value(ch):
+        raise Inconclusive("split pattern")
+    return SplitV(as_str(ctx, a[0]), z3.StringVal(chr(ch.as_long())), "rsplit" in c.split("::")[-2:][0] or "::rsplit" in c)
+
+
+@model("<Split as Iterator>::next", "<RSplit as Iterator>::next", doc="core: first item of split / rsplit")
+def _split_next(ctx, a, c):
+    it = deref(ctx, a[0])
+    if it.count > 0:
+        raise Inconclusive("second item of a str split iterator")
+    it.count += 1
+    s, ch = it.s, it.ch
+    known = getattr(ctx, "parse_registry", {}).get(s.get_id())
+    if known is not None and z3.simplify(ch == z3.StringVal("@")) and z3.is_true(z3.simplify(ch == z3.StringVal("@"))):
+        # text built from a structured authority: `@` occurs only between userinfo and host[:port]
+        hp = known._hp
+        if known.userinfo is None or it.rev:
+            return some(hp)
+        return some(z3.If(known.userinfo == z3.StringVal(""), hp, known.userinfo))
+    if it.rev:
+        i = z3.LastIndexOf(s, ch)
+        return some(z3.If(i < 0, s, z3.SubString(s, i + 1, z3.Length(s) - i - 1)))
+    i = z3.IndexOf(s, ch, 0)
+    return some(z3.If(i < 0, s, z3.SubString(s, 0, i)))
+
+
+@model("str::find", doc="core: byte index of the first occurrence of a char pattern")
+def _str_find(ctx, a, c):
+    ch = z3.simplify(a[1])
+    if not z3.is_bv_value(ch):
+        raise Inconclusive("find pattern")
+    s = as_str(ctx, a[0])
+    i = z3.IndexOf(s, z3.StringVal(chr(ch.as_long())), 0)
+    if ctx.branch(i >= 0, "pattern found"):
+        return some(z3.Int2BV(i, 64))
+    return none()
+
+
+@model("str::starts_with", doc="core: char / str prefix test")
+def _starts_with(ctx, a, c):
+    p = a[1]
+    if z3.is_bv(p):
+        p = z3.simplify(p)
+        p = z3.StringVal(chr(p.as_long()))
+    else:
+        p = as_str(ctx, p)
+    return z3.PrefixOf(p, as_str(ctx, a[0]))
+
+
+@model("str::ends_with", doc="core")
+def _ends_with(ctx, a, c):
+    p = a[1]
+    if z3.is_bv(p):
+        p = z3.simplify(p)
+        p = z3.StringVal(chr(p.as_long()))
+    else:
+        p = as_str(ctx, p)
+    return z3.SuffixOf(p, as_str(ctx, a[0]))
+
+
+@model("str::contains", doc="core")
+def _contains(ctx, a, c):
+    p = a[1]
+    if z3.is_bv(p):
+        p = z3.simplify(p)
+        p = z3.StringVal(chr(p.as_long()))
+    else:
+        p = as_str(ctx, p)
+    return z3.Contains(as_str(ctx, a[0]), p)
+
+
+@model("Poll::is_ready", doc="core")
+def _poll_is_ready(ctx, a, c):
+    return z3.BoolVal(deref(ctx, a[0]).variant == "Ready")
+
+
+@model("Poll::is_pending", doc="core")
+def _poll_is_pending(ctx, a, c):
+    return z3.BoolVal(deref(ctx, a[0]).variant == "Pending")
+
+
+@model("Poll::map", doc="core: Ready(x) => Ready(f(x))")
+def _poll_map(ctx, a, c):
+    p = a[0]
+    if p.variant == "Pending":
+        return p
+    return Enum("Poll", "Ready", 0, [call_closure(ctx, a[1], [p.f[0]])])
